@@ -136,7 +136,7 @@ theorem feedAac_ok {o : Observer σ} {P : σ → Prop} (hI : ObsInv o P) (s : St
   exact Ok.ok (flushIf_inv hI _ s os h)
 
 theorem feedOpus_ok {o : Observer σ} {P : σ → Prop} (hI : ObsInv o P) (s : St) (os : σ) (m : Msg)
-    (h2 : 2 < m.payload.length) (h : P os) : Ok (fun x => P x.2) (feedOpus o s os m) := by
+    (h2 : 1 < m.payload.length) (h : P os) : Ok (fun x => P x.2) (feedOpus o s os m) := by
   unfold feedOpus
   obtain ⟨r, hr, _⟩ := Ok.from? "feedAudio: Payload[1:]" m.payload 1 (by omega)
   simp only [hr, GoM.ok_bind, GoM.pure_eq]
@@ -149,14 +149,21 @@ theorem feedAudio_ok {o : Observer σ} {P : σ → Prop} (hI : ObsInv o P) (s : 
   split
   · exact Ok.ok h
   · split
-    · obtain ⟨b, hb, _⟩ := Ok.idx? "feedAudio: Payload[1]" m.payload 1 (by omega)
-      simp only [hb, GoM.ok_bind]
-      split
-      · exact cacheAsc_ok s os m (by omega) h
-      · split
-        · exact Ok.ok h
-        · exact feedAac_ok hI s os m _ (by omega) h
-    · exact feedOpus_ok hI s os m (by omega) h
+    · exact Ok.ok h
+    · split
+      · rename_i h1 h2 hc
+        have h3 : 2 < m.payload.length := by
+          rcases Nat.lt_or_ge 2 m.payload.length with h | h
+          · exact h
+          · exact absurd ⟨by omega, hc⟩ h2
+        obtain ⟨b, hb, _⟩ := Ok.idx? "feedAudio: Payload[1]" m.payload 1 (by omega)
+        simp only [hb, GoM.ok_bind]
+        split
+        · exact cacheAsc_ok s os m h3 h
+        · split
+          · exact Ok.ok h
+          · exact feedAac_ok hI s os m _ h3 h
+      · exact feedOpus_ok hI s os m (by omega) h
 
 theorem onPop_ok {o : Observer σ} {P : σ → Prop} (hI : ObsInv o P) (s : St) (os : σ) (m : Msg) (h : P os) :
     Ok (fun x => P x.2) (onPop o s os m) := by
